@@ -200,4 +200,45 @@ example :
        .result 1 (.fallback 1)] ∧
     (run cfg ops).falling.length = 0 := by decide
 
+/-! ## Units: the model is unit-free (whole clock ticks)
+
+Every statement above holds for every `cfg.waitMs : Nat` and every instant: nothing assumes that a configured duration is a
+whole number of milliseconds. In `tick=us` cases of the correspondence check one tick is 1 µs (`wait=900` is 900 µs); only the
+scripted latencies of the test double (`inner=`, `fb=`: tokio timers) are in milliseconds, `cfg.msTicks` ticks each. -/
+
+/-- A scripted latency of `lat > 0` ms started at `now` is over at the first millisecond boundary at or after `now + lat` ms
+(timer granularity of the test double), and exactly at `now + lat` when one tick is one millisecond. -/
+theorem scripted_latency_on_ms_grid (cfg : Cfg) (now lat : Nat) (hm : cfg.msTicks ≥ 1) (hl : lat > 0) :
+    now + lat * cfg.msTicks ≤ due cfg now lat ∧ due cfg now lat < now + lat * cfg.msTicks + cfg.msTicks ∧
+    due cfg now lat % cfg.msTicks = 0 := by
+  unfold due
+  have hl' : lat ≠ 0 := by omega
+  simp only [hl', if_false]
+  generalize now + lat * cfg.msTicks = x
+  have h1 := Nat.div_add_mod (x + (cfg.msTicks - 1)) cfg.msTicks
+  have h2 := Nat.mod_lt (x + (cfg.msTicks - 1)) hm
+  have h3 : (x + (cfg.msTicks - 1)) / cfg.msTicks * cfg.msTicks = cfg.msTicks * ((x + (cfg.msTicks - 1)) / cfg.msTicks) := Nat.mul_comm _ _
+  refine ⟨by omega, by omega, ?_⟩
+  exact Nat.mul_mod_left _ _
+
+theorem scripted_latency_ms (cfg : Cfg) (now lat : Nat) (hm : cfg.msTicks = 1) : due cfg now lat = now + lat := by
+  unfold due
+  split
+  · omega
+  · simp [hm]
+
+/-- Non-vacuity on the microsecond grid: `wait_duration_in_open` = 900 µs. Forced open at 0; a caller at 899 µs is rejected
+(no inner call), a caller at 900 µs is admitted as the trial; its inner call (1 ms, started at 900 µs) is over at the
+millisecond boundary 2000 µs: still half-open at 1999, closed at 2000. -/
+example :
+    let cfg : Cfg := { waitMs := 900, msTicks := 1000, permitted := 1 }
+    let pre := [Op.forceOpen, .adv 899, .arrive 1 ⟨0, .ok⟩ 0, .poll 1]
+    (run cfg pre).circ.st = .opened ∧ (run cfg pre).serial = 0 ∧
+    (run cfg pre).log.getLast? = some (899, CEv.result 1 .openCircuit) ∧
+    (run cfg (pre ++ [.adv 1, .arrive 2 ⟨1, .ok⟩ 0, .poll 2])).circ.st = .halfOpen ∧
+    (run cfg (pre ++ [.adv 1, .arrive 2 ⟨1, .ok⟩ 0, .poll 2])).serial = 1 ∧
+    (run cfg (pre ++ [.adv 1, .arrive 2 ⟨1, .ok⟩ 0, .poll 2, .adv 1099, .poll 2])).circ.st = .halfOpen ∧
+    (run cfg (pre ++ [.adv 1, .arrive 2 ⟨1, .ok⟩ 0, .poll 2, .adv 1100, .poll 2])).circ.st = .closed := by
+  decide
+
 end TR.Props.C03
